@@ -179,7 +179,132 @@ func (l *lgen) variant(g geom.Geometry) geom.Geometry {
 	return g
 }
 
+// gridRing: the outline of the box (x0,y0)-(x1,y1); with dense, every lattice point on it is a vertex.
+func gridRing(x0, y0, x1, y1 int, dense bool) geom.LineString {
+	cs := [][2]int{{x0, y0}, {x1, y0}, {x1, y1}, {x0, y1}, {x0, y0}}
+	return stepRing(cs, dense)
+}
+
+// diamondRing: the square on its corner around (cx, cy), reaching rad along the axes.
+func diamondRing(cx, cy, rad int, dense bool) geom.LineString {
+	return stepRing([][2]int{{cx + rad, cy}, {cx, cy + rad}, {cx - rad, cy}, {cx, cy - rad}, {cx + rad, cy}}, dense)
+}
+
+func stepRing(cs [][2]int, dense bool) geom.LineString {
+	var pts []geom.XY
+	for i := 0; i+1 < len(cs); i++ {
+		a, b := cs[i], cs[i+1]
+		steps := 1
+		if dense {
+			steps = gcdInt(b[0]-a[0], b[1]-a[1])
+		}
+		for k := 0; k < steps; k++ {
+			pts = append(pts, geom.XY{X: float64(a[0] + (b[0]-a[0])*k/steps), Y: float64(a[1] + (b[1]-a[1])*k/steps)})
+		}
+	}
+	pts = append(pts, pts[0])
+	return geom.NewLineString(seqOf(pts))
+}
+
+// bigRawAreal: not validated, with one large dimension - rings of many vertices (every lattice point along the outline),
+// many holes, many member polygons - laid out on a grid of cells so that neighbours are apart, or touch in single
+// points (which is allowed unless it closes a cycle around part of the interior), or share edges (which is not).
+func (l *lgen) bigRawAreal() geom.Geometry {
+	r := l.r
+	c := 4 + 2*r.Intn(2)
+	cells := (l.N - 2) / c
+	m := 2 + r.Intn(5)
+	if r.Intn(3) == 0 {
+		m = l.bigCount()
+	}
+	if m > cells*cells {
+		m = cells * cells
+	}
+	dense := r.Intn(3) != 0
+	// neighbours first: consecutive cells of a random walk touch more often than cells picked anywhere
+	var picked []int
+	if r.Intn(2) == 0 {
+		picked = r.Perm(cells * cells)[:m]
+	} else {
+		seen := map[int]bool{}
+		cur := r.Intn(cells * cells)
+		for tries := 0; len(picked) < m && tries < 20*m; tries++ {
+			if !seen[cur] {
+				seen[cur] = true
+				picked = append(picked, cur)
+			}
+			x, y := cur%cells, cur/cells
+			switch r.Intn(4) {
+			case 0:
+				x++
+			case 1:
+				x--
+			case 2:
+				y++
+			default:
+				y--
+			}
+			if x >= 0 && x < cells && y >= 0 && y < cells {
+				cur = y*cells + x
+			}
+		}
+	}
+	mode := r.Intn(4) // the shape every cell gets, or mixed
+	var rings []geom.LineString
+	for _, k := range picked {
+		x, y := 1+c*(k%cells), 1+c*(k/cells)
+		sh := mode
+		if mode == 3 {
+			sh = r.Intn(5)
+		}
+		switch sh {
+		case 0: // diamonds: touch their four neighbours in single points
+			rings = append(rings, diamondRing(x+c/2, y+c/2, c/2, dense))
+		case 1: // apart
+			rings = append(rings, gridRing(x+1, y+1, x+c-1, y+c-1, dense))
+		case 2: // the whole cell: shares an edge with each neighbour
+			rings = append(rings, gridRing(x, y, x+c, y+c, dense))
+		case 3: // touches left and right neighbours along part of an edge
+			rings = append(rings, gridRing(x, y+1, x+c, y+c-1, dense))
+		default: // corner to corner: touches diagonal neighbours in one point
+			rings = append(rings, stepRing([][2]int{{x, y}, {x + c, y + c}, {x, y + c}, {x, y}}, dense))
+		}
+	}
+	ext := 2 + c*cells
+	if r.Intn(2) == 0 { // one polygon, the cells are its holes
+		return geom.NewPolygon(append([]geom.LineString{gridRing(0, 0, ext, ext, dense && r.Intn(2) == 0)}, rings...)).AsGeometry()
+	}
+	var ps []geom.Polygon
+	for _, rg := range rings {
+		ps = append(ps, geom.NewPolygon([]geom.LineString{rg}))
+	}
+	return geom.NewMultiPolygon(ps).AsGeometry()
+}
+
 func validGen(r *rand.Rand, n int, tier string, emit func(Case)) {
+	defer func() {
+		for i := 0; i < bigExtra(n); i++ { // large sizes
+			l := bigLattice(r)
+			var g geom.Geometry
+			switch r.Intn(6) {
+			case 0:
+				g = l.bigAny()
+			case 1:
+				emit(Case{"kind": "line", "w": []geom.Geometry{l.bigLineString().AsGeometry(), l.bigMultiLineString().AsGeometry()}[r.Intn(2)].AsText()})
+				continue
+			default:
+				g = l.bigRawAreal()
+			}
+			c := Case{"kind": "geom", "w": g.AsText()}
+			if r.Intn(3) == 0 {
+				c["hist"] = 1 + r.Intn(7)
+			}
+			if r.Intn(3) == 0 {
+				c["t"] = l.randSimil().toCase()
+			}
+			emit(c)
+		}
+	}()
 	for i := 0; i < n; i++ {
 		l := &lgen{r: r, N: 3 + r.Intn(4)}
 		if r.Intn(10) == 0 {
